@@ -38,7 +38,7 @@ PROPS = {
         verus=['overlay', 'compression'],
         kani=['pyramid', 'tile_converter', 'tile_bbox_iter'],
         not_decided=[
-            'get_tile_stream of the overlay (async closure per 32x32 sub-box mutating a captured vector)',
+            'get_tile_stream of the overlay outside the per-cell closure: iter_bbox_grid(32) split (grid law bounded in tile_bbox_iter) and from_stream_iter concatenation; recompress failing inside the stream (assumption A-overlay-1: the real code panics there)',
             'construction of the nested source pipelines (join_all, havoc under R9)',
         ],
     ),
@@ -50,11 +50,11 @@ PROPS = {
         ],
     ),
     'C02': dict(
-        verus=['converter', 'filters'],
+        verus=['converter', 'filters', 'overlay'],
         kani=[],
         not_decided=[
             'container readers (the base case): chunk merging, SQL range query, default lookup loop live in async stream code',
-            'overlay and merge stream paths',
+            'overlay: the split of a request into iter_bbox_grid(32) cells and the concatenation of the cell streams (the per-cell stream is under contract); merge stream paths',
             'multiplicity (each tile once): streams are modelled as finite maps',
         ],
     ),
